@@ -266,8 +266,15 @@ def run(ctx):
                    'the math closing test is %s: $a$$b$ / $$a$$ are split wrongly' % facts,
                    construct='LatexMathParserInfo.stop_token_condition')
     gmd = mi.get('get_matching_delimiter')
-    ok = gmd is not None and "_math_expecting_close_delim_info['close_delim']" in unparse(gmd) and \
-        'self.math_parsing_state' in unparse(gmd)
+    ok = False
+    if gmd is not None:
+        # every returned value, locals expanded, is <..>.math_parsing_state._math_expecting_close_delim_info['close_delim']
+        try:
+            grs = [c_ for c_ in symex.Walker(want_returns=True).run(gmd) if c_.kind == 'return']
+        except symex.TooManyPaths:
+            grs = []
+        ok = bool(grs) and all(unparse(symex.expand(c_.sub, c_.env)).replace('"', "'") ==
+                               "self.math_parsing_state._math_expecting_close_delim_info['close_delim']" for c_ in grs)
     ctx.decide('R10a', ok, mm, gmd or init, 'closing delimiter taken from the math state\'s table',
                'get_matching_delimiter does not read the expected closer from the math state',
                construct='LatexMathParserInfo.get_matching_delimiter', trivial=True)
@@ -719,6 +726,50 @@ def run(ctx):
                    'after `$a \\verb|x| b$` the text that follows is recorded in math mode'
                    % ('None' if isnone else short(cs.sub, 50), ' & '.join(cs.cond_src())[-120:]),
                    construct='get_parser_parsing_state_delta: %s' % ('no change' if isnone else 'changed state'))
+
+    from ..core import set_parents as _sp
+    # ---- R10q: a call that delegates to the same helper forwards every option the helper reads
+    ctx.rule('R10q', 'the specification helpers (std_macro, std_environment, ...): a call by which such a function delegates to '
+                     'itself passes on every option it reads from its **kwargs (or the whole **kwargs): dropping '
+                     'environment_is_math_mode in one calling form builds a text-mode environment from is_math_mode=True '
+                     '(exercised on a built-in example on every run)', 0)
+
+    def _dropped_options(fn_):
+        if fn_.args.kwarg is None:
+            return
+        kw_ = fn_.args.kwarg.arg
+        opts = set()
+        for c_ in ast.walk(fn_):
+            if isinstance(c_, ast.Call) and call_name(c_) in ('get', 'pop') and isinstance(call_recv(c_), ast.Name) \
+                    and call_recv(c_).id == kw_ and c_.args and isinstance(c_.args[0], ast.Constant):
+                opts.add(c_.args[0].value)
+            elif isinstance(c_, ast.Subscript) and isinstance(c_.value, ast.Name) and c_.value.id == kw_ and \
+                    isinstance(c_.slice, ast.Constant):
+                opts.add(c_.slice.value)
+        for c_ in ast.walk(fn_):
+            if isinstance(c_, ast.Call) and isinstance(c_.func, ast.Name) and c_.func.id == fn_.name:
+                if any(k_.arg is None for k_ in c_.keywords):
+                    continue
+                missing = sorted(opts - {k_.arg for k_ in c_.keywords})
+                if missing:
+                    yield c_, missing
+
+    exq = ast.parse('def h(n, *a, **kw):\n if len(a) == 2:\n  return h(n, a[1], mk=kw.get("mk", False))\n'
+                    ' return S(n, a[0], m=kw.get("m", None)) if kw.get("mk", False) else M(n, a[0])\n')
+    _sp(exq)
+    if len(list(_dropped_options(exq.body[0]))) != 1:
+        raise AnalysisError('R10q: the rule no longer fires on its built-in example')
+    shm = repo.mod('pylatexenc.macrospec._spechelpers')
+    n_do = 0
+    for q_, f_ in sorted(shm.functions.items()):
+        for c_, miss_ in _dropped_options(f_):
+            n_do += 1
+            ctx.refuted('R10q', shm, c_, '%s delegates to itself (%s) without the option(s) %s that it reads from its keyword '
+                        'arguments: in this calling form they silently take their defaults -- std_environment(name, None, '
+                        'argspec, is_math_mode=True) builds an environment whose body is parsed in text mode'
+                        % (q_, short(c_, 60), miss_), construct='%s: self-delegation without %s' % (q_, miss_))
+    ctx.holds('R10q', shm, None, 'no self-delegating call drops an option in the specification helpers',
+              construct='self-delegation scan', trivial=True)
 
     # ---- R10p: a field takes the value prepared for it
     ctx.rule('R10p', 'in the specification and parser classes no field is set from a like-named *other* variable while the '
